@@ -1,11 +1,12 @@
 import AlgopyVerif.Proofs.Convert
+import AlgopyVerif.Proofs.ShiftOver
 import AlgopyVerif.Proofs.Pivot
 /-!
 # C17 — conversions between representations are lossless and mutually inverse
 
 * `shift`: `shift(shift(x, s), -s)` is `x` with the last `s` coefficients cleared,
   `shift(shift(x, -s), s)` is `x` with the first `s` cleared, `shift(x, 0) = x` (on the
-  repaired code: `shift(0)` used to raise);
+  repaired code: `shift(0)` used to raise); `shift_overshift`: a shift by `|s| ≥ D` gives the zero polynomial;
 * `symvec`/`vecsym` (all three storage conventions), all `N`;
 * `base_and_dirs2utpm` / `utpm2base_and_dirs`, all shapes, `D`, `P`;
 * pivot vectors: the permutation `τ₀…τ_{N-1}` built by `piv2mat` has sign, and its
@@ -24,6 +25,12 @@ section
 variable {K : Type} [Field K]
 
 theorem shift_zero (x : List K) : shiftS 0 x = x := shiftS_zero x
+
+/-- a shift by at least the number of coefficients, in either direction, gives the zero polynomial (nothing wraps around) -/
+theorem shift_overshift (s : Int) (x : List K) (h : x.length ≤ s.natAbs) :
+    shiftS s x = List.replicate x.length 0 := shiftS_overshift s x h
+
+example : shiftS (-3 : Int) [(1:ℚ), 2] = [0, 0] := by decide +kernel
 
 theorem shift_roundtrip_up_down (s : Nat) (x : List K) (hs : s ≤ x.length) :
     shiftS (-(s:Int)) (shiftS (s:Int) x)
